@@ -159,3 +159,17 @@ func vfPacketAddr(i int) string   { return "" }
 func vfPacketBytes(i int) []byte  { return nil }
 func vfSetLocalNode(n any)        {}
 func vfSetNumMembers(n int)       {}
+func vfOpaqueEncoding()           {}
+func vfLastEncLen() int           { return 0 }
+func vfPacketLen(i int) int       { return 0 }
+func vfEncLen(i int) int          { return 0 }
+
+// vfFixedBytes: n symbolic bytes (fixed length).
+func vfFixedBytes(name string, n int) []byte {
+	nm := vfName(name)
+	b := make([]byte, n)
+	for i := range b {
+		b[i] = byte(vfRaw(fmt.Sprintf("%s[%d]", nm, i)))
+	}
+	return b
+}
